@@ -696,6 +696,24 @@ func c02Tables(c *vlib.Ctx, ck *Checker[c02Case]) {
 				cell{CfgLit{Origins: []string{"https://*." + strings.Join(labels[1:], "."), "http://" + host + ":*"}, Credentialed: true, TolInsecure: true, TolPSL: true, Methods: []string{"PUT"}, RequestHeaders: []string{"X-A"}}, ins})
 		}
 	}
+	// two hosts that share more than the base domain, and a wildcard over the base domain under another scheme or port,
+	// in every order
+	for _, trio := range [][3]string{
+		{"http://dev.app.example.com", "http://staging.app.example.com", "https://*.example.com"},
+		{"https://eu-api.example.com:8443", "https://us-api.example.com:8443", "https://*.example.com"},
+		{"https://api.example.com", "https://kpi.example.com", "http://*.example.com:*"},
+		{"https://a.b.example.com", "https://c.b.example.com:9", "https://*.b.example.com:9"},
+	} {
+		var ins []ref.Intent
+		for _, o := range []string{"http://dev.app.example.com", "http://staging.app.example.com", "https://dev.app.example.com", "https://x.example.com", "https://eu-api.example.com:8443", "https://us-api.example.com:8443", "https://eu-api.example.com",
+			"https://api.example.com", "https://kpi.example.com", "http://api.example.com:81", "https://a.b.example.com", "https://c.b.example.com:9", "https://d.b.example.com:9", "https://a.b.example.com:9", "https://example.com"} {
+			ins = append(ins, ref.Intent{Origin: o, Method: "GET"}, ref.Intent{Origin: o, Method: "PUT", Headers: []string{"x-a"}})
+		}
+		for _, p := range vlib.Permutations(3) {
+			cells = append(cells, cell{CfgLit{Origins: []string{trio[p[0]], trio[p[1]], trio[p[2]]}, Methods: []string{"PUT"}, RequestHeaders: []string{"X-A"}, TolInsecure: true, TolPSL: true}, ins},
+				cell{CfgLit{Origins: []string{trio[p[0]], trio[p[1]], trio[p[2]]}, Credentialed: true, Methods: []string{"PUT"}, RequestHeaders: []string{"X-A"}, TolInsecure: true, TolPSL: true}, ins})
+		}
+	}
 	// one host under several schemes with different port sets, in every order of two and three patterns
 	sp := []string{"https://a.example", "http://a.example:8080", "https://a.example:9", "http://a.example", "ws://a.example:8080", "https://*.a.example:8080", "http://*.a.example"}
 	var spIntents []ref.Intent
